@@ -21,10 +21,15 @@ GROUPSETS = {
     "list_form": [("group_0", "plain", [1], False), ("group_1", "plain", [2, 3, 4], False)],
     # label values beyond one byte (voxel domain {0, 1, 256, 512}): single-instance group 256, plain group {1, 512}
     "wide_labels": [("a", "plain", [1, 512], False), ("organ", "plain", [256], True)],
+    # two user names that collide once the class lower-cases them ({"Lesion": [1], "lesion": [2]}): only the later definition survives, so the
+    # effective definition is the single group "lesion" = {2}; label 1 is then an undefined label and must be rejected, not silently dropped
+    # (a constructor that refuses the colliding names outright is accepted as well)
+    "colliding_names": [("lesion", "plain", [2], False)],
 }
+COLLIDING = [("Lesion", [1]), ("lesion", [2])]
 WIDE = [0, 1, 256, 512]
 META = {
-    "bounds": {"quick": "label maps 1-D 2-3 voxels per array with labels 0..4 (-1..4 for signed semantic input); four group definitions (plain / merge / single-instance / list form); input types semantic (int64, uint8), unmatched, matched",
+    "bounds": {"quick": "label maps 1-D 2-3 voxels per array with labels 0..4 (-1..4 for signed semantic input); group definitions plain / merge / single-instance / list form / wide labels / two names colliding after lower-casing; input types semantic (int64, uint8), unmatched, matched",
                "thorough": "1-D 4 voxels (3 for signed input and for the wide-label group set)"},
     "stubs": ["panoptic_evaluate := uninterpreted (arguments recorded)"],
     "assumptions": ["'equals evaluating the restricted arrays without groups' is reduced to 'panoptic_evaluate receives exactly the restricted arrays, pair class and threshold'; evaluation being a function of these is C15/C01",
@@ -87,6 +92,8 @@ def run_case(case):
         for name, kind, labels, single in gs:
             cls = LG.LabelMergeGroup if kind == "merge" else LG.LabelGroup
             objs.append((name, cls(list(labels), single)))
+        if case["groupset"] == "colliding_names":
+            return SC.SegmentationClassGroups({name: LG.LabelGroup(list(labels), False) for name, labels in COLLIDING})
         if case["groupset"] == "list_form":
             return SC.SegmentationClassGroups([o for _, o in objs])
         return SC.SegmentationClassGroups({name.upper(): o for name, o in objs})     # keys are lower-cased by the class
@@ -100,7 +107,16 @@ def run_case(case):
         del calls[:]
         pa = SArr(list(pv), dt).protect("caller prediction")
         ra = SArr(list(rv), dt).protect("caller reference")
-        ev = PE.Panoptica_Evaluator(expected_input=getattr(PP.InputType, it), segmentation_class_groups=mkgroups(), decision_metric=T.panoptica.Metric.IOU, decision_threshold=0.5)
+        try:
+            groups_obj = mkgroups()
+        except EngineSignal:
+            raise
+        except (AssertionError, ValueError, KeyError) as e:
+            # only the colliding definition may be refused at construction
+            h.ok("group_definition_accepted", case["groupset"] == "colliding_names", detail=str(e)[:120])
+            h.witness(expect=None)
+            return
+        ev = PE.Panoptica_Evaluator(expected_input=getattr(PP.InputType, it), segmentation_class_groups=groups_obj, decision_metric=T.panoptica.Metric.IOU, decision_threshold=0.5)
         undefined = z3.Or([z3.And(v != 0, z3.And([v != l for l in defined])) for v in pv + rv])
         try:
             out = ev.evaluate(pa, ra, verbose=False)
@@ -151,6 +167,8 @@ def _mkgroups_real(gsname):
     from panoptica.utils.segmentation_class import SegmentationClassGroups
     gs = GROUPSETS[gsname]
     objs = [(name, (LabelMergeGroup if kind == "merge" else LabelGroup)(list(labels), single)) for name, kind, labels, single in gs]
+    if gsname == "colliding_names":
+        return SegmentationClassGroups({name: LabelGroup(list(labels), False) for name, labels in COLLIDING})
     if gsname == "list_form":
         return SegmentationClassGroups([o for _, o in objs])
     return SegmentationClassGroups({name.upper(): o for name, o in objs})
@@ -203,9 +221,14 @@ def real_groups(case, mode, expect):
         seen.append(kw.get("decision_threshold"))
         return orig_pe(*a, **kw)
     bad = None
+    try:
+        groups_obj = _mkgroups_real(case["groupset"])
+    except (AssertionError, ValueError, KeyError) as e:
+        refused_ok = case["groupset"] == "colliding_names"
+        return {"match": True, "violates": not refused_ok, "reason": None if refused_ok else "group_definition_accepted: %s" % str(e)[:160], "observed": None}
     RPE.panoptic_evaluate = spy
     try:
-        out = mk(it, _mkgroups_real(case["groupset"])).evaluate(pred, ref, verbose=False)
+        out = mk(it, groups_obj).evaluate(pred, ref, verbose=False)
         raised = None
     except AssertionError as e:
         raised = e
